@@ -1125,7 +1125,13 @@ func (t *Tree) Compile(file string, args []string, out io.Writer) (err error) {
 		case TypePredicate:
 			/* white space around the expression is layout; a line end in front of
 			   the closing parenthesis would be read as the end of a statement */
-			_print("\n   if !(%v) {", strings.TrimSpace(n.String()))
+			if text := strings.TrimSpace(n.String()); strings.Contains(text, "//") {
+				/* a line comment would swallow the closing parenthesis: the line end
+				   behind the expression ends the statement in front of the test */
+				_print("\n   if ok := %v\n   !ok {", text)
+			} else {
+				_print("\n   if !(%v) {", text)
+			}
 			printJump(ko)
 			_print("}")
 		case TypeStateChange:
